@@ -71,7 +71,7 @@ theorem expunge_in_sync_is_reference {s : Sys} (h : SysInv s) (hm : Sys.Marked s
   have hS := h.sess i me hi
   unfold SessInv at hS
   rw [hs] at hS
-  exact expunge_of_marks h.wf hi hs hS.1 (settled_marks_are_deleted_column h hm hi hs hres hq)
+  exact expunge_of_marks h.wf hi hs hS.1 hres (settled_marks_are_deleted_column h hm hi hs hres hq)
 
 /-- `Box.expunged` is `MailboxRef.refExpunge` read on one mailbox table: the entries whose message is among the
     messages of the `\Deleted` entries are removed -/
